@@ -386,6 +386,17 @@ def programs(tier):
                 continue
             for pair in stacked_configs(n):
                 out.append((spec, pair))
+    # an extra target that is NOT the last field, in list layouts and layouts moved under a key (three options at once, outside the
+    # deviation bound of the cube above): positions of the fields behind the target must not shift
+    mid = [["a", "int", "req"], ["rest", "dictany", "req"], ["b", "int", "req"]]
+    for kind in ("dataclass", "attrs") if tier == "thorough" else ("dataclass",):
+        spec = {"kind": kind, "name": "Model", "fields": mid}
+        for as_list in (None, True):
+            for mp in (None, "pairs_int", "path_shared", "idx_rev"):
+                for xo in (None, ["target", [1]]):
+                    for xi in (None, ["target", [1]], "forbid"):
+                        cfg = {k: v for k, v in (("as_list", as_list), ("map", mp), ("extra_out", xo), ("extra_in", xi)) if v}
+                        out.append((spec, [cfg]))
     if tier == "thorough":
         import itertools
         from mc.modsweep import dimensions
